@@ -26,7 +26,11 @@ if rnd > 1:
              '; in this round prefer: helper functions and other modules of the package that the anchored code calls, default argument '
              'values and keyword/positional conventions, the type / dtype / shape of what is returned, exception types on refused input, '
              'in-place modification of arguments, results that depend on an earlier call, behaviour for empty / length-1 / scalar inputs, '
-             'very large or very small magnitudes' if rnd >= 3 else '') + '):\n' + '\n'.join(items) + '\n')
+             'very large or very small magnitudes' if rnd in (3, 4) else '') + (
+             '; in this round prefer plain logic slips inside the anchored functions themselves that matter only for particular '
+             'parameter values: orders / widths / counts at their extremes (1, 2, the maximum), off-by-one at the first or last '
+             'element, the wrong variable in one of several symmetric branches, sign and unit conventions, a rarely used but documented '
+             'keyword option, inputs that are already sorted / reversed / all equal, exactly representable boundary values' if rnd >= 5 else '') + '):\n' + '\n'.join(items) + '\n')
 mech = '\n'.join('- %s (%s)' % (m['name'], m['where']) for m in p['anchors'].get('mechanism', []))
 task = f"""You are helping to evaluate a verification tool by writing realistic BUGS. You get one semantic property of the Python
 library weaverba137/pydl (Python ports of IDL astronomy routines) and a private git worktree of the library at {wt}
